@@ -116,8 +116,7 @@ func (ex *Exec) step(st *State, in ssa.Instruction) {
 		m := ex.val(st, t.Map)
 		k := ex.val(st, t.Key)
 		v := ex.val(st, t.Value)
-		ks, vs := st.u().sortOf(mt.Key()), st.u().sortOf(mt.Elem())
-		d, vf, l := st.mapFams(ks, vs)
+		d, vf, l := st.mapFamsT(mt)
 		st.check(fmt.Sprintf("safe/nilmap#%d", ex.ordinal[t]), "nilmap", neq(m, intLit(0)), "assignment to entry in nil map", nil, t.Pos())
 		ex.frameCheck(st, fmt.Sprintf("frame/mapupdate#%d", ex.ordinal[t]), t.Pos(), t.Map, []frameTarget{{Fam: d.Name, Obj: m}, {Fam: vf.Name, Obj: m}, {Fam: l.Name, Obj: m}})
 		was := st.readFam(st.heap, d, m, k)
@@ -128,8 +127,7 @@ func (ex *Exec) step(st *State, in ssa.Instruction) {
 	case *ssa.MakeMap:
 		id := ex.newObject(st, "map")
 		mt := t.Type().Underlying().(*types.Map)
-		ks, vs := st.u().sortOf(mt.Key()), st.u().sortOf(mt.Elem())
-		d, _, l := st.mapFams(ks, vs)
+		d, _, l := st.mapFamsT(mt)
 		st.updateFamWhere(d, func(p []Term) Term { return eq(p[0], id) }, func(p []Term) Term { return tFalse })
 		st.writeFam(l, []Term{id}, intLit(0))
 		st.vals[t] = id
@@ -181,7 +179,7 @@ func (ex *Exec) step(st *State, in ssa.Instruction) {
 		ks, vs := st.u().sortOf(mt.Key()), st.u().sortOf(mt.Elem())
 		vis := st.sc.freshFun("visited", []Sort{ks}, SBool)
 		st.sc.emit("(assert (forall ((k %s)) (! (not (%s k)) :pattern ((%s k)))))", ks, vis, vis)
-		d, _, _ := st.mapFams(ks, vs)
+		d, _, _ := st.mapFamsT(mt)
 		st.iters[t] = &MapIter{Map: ex.val(st, t.X), KSort: ks, VSort: vs, Visited: vis, MapType: mt, Count: intLit(0), StartDom: st.heap[d.Name]}
 	case *ssa.Next:
 		ex.next(st, t)
@@ -216,8 +214,8 @@ func (ex *Exec) lookup(st *State, t *ssa.Lookup) {
 	}
 	mt := t.X.Type().Underlying().(*types.Map)
 	m := ex.val(st, t.X)
-	ks, vs := st.u().sortOf(mt.Key()), st.u().sortOf(mt.Elem())
-	d, vf, _ := st.mapFams(ks, vs)
+	vs := st.u().sortOf(mt.Elem())
+	d, vf, _ := st.mapFamsT(mt)
 	st.sc.ensureSort(vs)
 	present := and(neq(m, intLit(0)), st.readFam(st.heap, d, m, idx))
 	raw := st.readFam(st.heap, vf, m, idx)
@@ -488,6 +486,19 @@ func (ex *Exec) typeAssert(st *State, t *ssa.TypeAssert) {
 		}
 	}
 	if t.CommaOk {
+		if _, isIface := at.Underlying().(*types.Interface); !isIface {
+			// what an interface value holds was created before the interface value itself
+			raw := st.unbox(ifPayload(x), at)
+			bound := st.alloc
+			switch t.X.(type) {
+			case *ssa.Parameter, *ssa.FreeVar:
+				bound = st.alloc0
+			}
+			saved := st.alloc
+			st.alloc = bound
+			st.assumeWellFormed(raw, at)
+			st.alloc = saved
+		}
 		st.tuples[t] = []Term{val, ok}
 		return
 	}
@@ -506,7 +517,7 @@ func (ex *Exec) next(st *State, t *ssa.Next) {
 	if it == nil {
 		ex.abort("next on unknown iterator")
 	}
-	d, vf, lf := st.mapFams(it.KSort, it.VSort)
+	d, vf, lf := st.mapFamsT(it.MapType)
 	if st.heap[d.Name] != it.StartDom {
 		// Go leaves the set of keys produced unspecified when the map is
 		// modified during iteration: require that it is not
@@ -581,6 +592,9 @@ func (ex *Exec) assignableCond(st *State, ft frameTarget) Term {
 			return tTrue
 		}
 		c := eq(ft.Obj, ls.Obj)
+		if ls.Guard != nil {
+			c = and(*ls.Guard, c)
+		}
 		if ls.Ranged {
 			if ft.Idx != nil {
 				c = and(c, le(ls.Lo, *ft.Idx), lt(*ft.Idx, ls.Hi))
